@@ -41,6 +41,16 @@ struct SurfaceEmplacer
 
     void operator()(SurfaceType st, Span<real_type const> data)
     {
+        if (st == SurfaceType::inv)
+        {
+            // Involutes have no runtime support, so they are not part of the
+            // visit_surface_type switch: construct the input surface here
+            using StorageSpan = Involute::StorageSpan;
+            surfaces->emplace_back(std::in_place_type<Involute>,
+                                   StorageSpan{data.data(), data.size()});
+            return;
+        }
+
         // Given the surface type, emplace a surface variant using the given
         // data.
         return visit_surface_type(
